@@ -617,6 +617,7 @@ impl<T> WrappedBlock<T> {
     spec fn inv_base(&self) -> bool { self.inv_wf() && self.inv_ws() && self.inv_bound() && self.inv_out() }
     spec fn inv_nw(&self) -> bool { self.inv_base() && self.inv_fit() }
     spec fn inv(&self) -> bool { self.inv_nw() && self.inv_word() }
+    spec fn total(&self) -> int { self.wslen + self.wordlen + self.width + self.word.len }
     spec fn frame(&self, o: &Self) -> bool { self.width == o.width && self.allow_overflow == o.allow_overflow && self.pad_blocks == o.pad_blocks }
 }
 impl<T: Clone + Eq + Debug + Default> WrappedBlock<T> {
@@ -1020,6 +1021,7 @@ impl<T: Clone + Eq + Debug + Default> WrappedBlock<T> {
             final(self).frame(old(self)), //@w @C02 @C15 #at_frame
             old(self).allow_overflow ==> r.is_ok(), //@w @C11 #at_overflow_ok
             final(self).text@.len() >= old(self).text@.len(), final(self).text@.take(old(self).text@.len() as int) =~= old(self).text@, //@w @C03 #at_keeps_emitted_lines
+            final(self).total() <= old(self).total() + 4 * text@.len(), //@w @C01 #at_growth_bound
     {
         hide(sw); hide(cwid); hide(off); hide(flat); hide(flat_str); hide(flat_elt); hide(spaces); hide(lines_wf); hide(lines_fit); //@w
         html_trace!("WrappedBlock::add_text({}), {:?}", text, main_tag);
@@ -1036,6 +1038,7 @@ impl<T: Clone + Eq + Debug + Default> WrappedBlock<T> {
             invariant                                                                                //@w
                 self.inv(), tag_ok::<T>(), self.frame(old(self)), self.width >= 1, //@w
                 self.wslen + self.wordlen + self.width + self.word.len + 4 * (text@.len() - it.index@) <= 0x4000_0000_0000_0000, //@w
+                self.total() + 4 * (text@.len() - it.index@) <= old(self).total() + 4 * text@.len(), //@w
                 0 <= it.index@ <= text@.len(),                                                       //@w
                 self.text@.len() >= old(self).text@.len(), self.text@.take(old(self).text@.len() as int) =~= old(self).text@, //@w
         {
@@ -1083,6 +1086,7 @@ impl<T: Clone + Eq + Debug + Default> WrappedBlock<T> {
                                     !wrapped ==> pos == self.line.len + self.wslen && pos >= pos0 && pos <= pos0 - pos0 % 8 + 8 && (pos > pos0) == at_least_one_space && self.text == mid.text, //@w
                                     self.wslen == mid.wslen, self.word == mid.word, //@w
                                     self.wslen + self.wordlen + self.width + self.word.len + 4 * (text@.len() - it.index@) <= 0x4000_0000_0000_0000, //@w
+                                    self.total() + 4 * (text@.len() - it.index@) <= old(self).total() + 4 * text@.len(), //@w
                                 decreases                                                            //@w
                                     (if at_least_one_space { 0int } else { 1int }),                  //@w
                                     (if !at_least_one_space && pos >= self.width { 1int } else { 0int }), //@w
